@@ -147,7 +147,7 @@ func (w *wdWorld) awaitEnded(l line) bool {
 }
 
 func shortCtx(g *gated) string {
-	for i := 0; i < 25 && g.ctx.Err() == nil; i++ {
+	for i := 0; i < 8 && g.ctx.Err() == nil; i++ {
 		select {
 		case <-g.ctx.Done():
 		case <-time.After(20 * time.Millisecond):
@@ -193,7 +193,7 @@ func (w *wdWorld) post() {
 	if first != nil {
 		ctx = shortCtx(first)
 	}
-	leaked := settle(func() int { return wdCensus() - w.base })
+	leaked := settleN(80, func() int { return wdCensus() - w.base })
 	w.mu.Lock()
 	n := w.notified
 	w.mu.Unlock()
